@@ -1,6 +1,99 @@
-"""Thorough tier additions (all three cfg configurations are analysed by props.run; this adds the
-compile-fail witnesses and the checker self-test, recorded in the evidence only)."""
+"""Thorough tier additions: compile-fail witnesses (type-level remainder) and the checker self-test
+(seeded-defect corpus + silent-on-benign corpus), the latter recorded in the evidence only."""
+import glob
+import json
+import os
+import re
+import shutil
+import subprocess
+import tempfile
+
+from .engine import HERE, tree_hash
+
+WITNESS_FOR = {
+    "C01": ["W1a", "W1b", "W1d"], "C02": ["W1c"], "C12": ["W1a", "W1b", "W1c", "W1d"],
+    "C08": ["W2a", "W3"], "C16": ["W2b", "W3"],
+}
+
+
+def run_witnesses(src):
+    """type-check the witness doctests against `src`; -> dict name -> list of (kind, ok)"""
+    cache = os.path.join(HERE, ".cache", "witness")
+    os.makedirs(cache, exist_ok=True)
+    key = tree_hash(src) + "-" + str(int(os.path.getmtime(os.path.join(HERE, "witness", "src", "lib.rs"))))
+    cf = os.path.join(cache, key + ".json")
+    if os.path.exists(cf):
+        return json.load(open(cf))
+    tmp = tempfile.mkdtemp(prefix="pqwit.")
+    try:
+        w = os.path.join(tmp, "witness")
+        shutil.copytree(os.path.join(HERE, "witness"), w, ignore=shutil.ignore_patterns("target"))
+        ct = open(os.path.join(w, "Cargo.toml")).read().replace('path = "/repo"', 'path = "%s"' % os.path.abspath(src))
+        open(os.path.join(w, "Cargo.toml"), "w").write(ct)
+        lock = os.path.join(src, "Cargo.lock")
+        if os.path.exists(lock):
+            shutil.copy(lock, os.path.join(w, "Cargo.lock"))
+        env = dict(os.environ, CARGO_TARGET_DIR=os.path.join(tmp, "target"), CARGO_NET_OFFLINE="true")
+        r = subprocess.run(["cargo", "+nightly", "test", "--doc", "--offline"], cwd=w, env=env, capture_output=True, text=True)
+        out = r.stdout + r.stderr
+        res = {}
+        for m in re.finditer(r"test src/lib\.rs - (\w+) \(line (\d+)\)( - compile fail| - compile)? \.\.\. (\w+)", out):
+            kind = "compile_fail" if (m.group(3) or "").endswith("fail") else "twin"
+            res.setdefault(m.group(1), []).append([kind, m.group(4) == "ok", int(m.group(2))])
+        if not res:
+            res = {"__error__": [["harness", False, 0]], "__log__": out[-1500:]}
+        json.dump(res, open(cf, "w"))
+        return res
+    finally:
+        shutil.rmtree(tmp, ignore_errors=True)
+
+
+def selftest(pid, limit_benign=None):
+    """apply each seeded mutant of this property and each benign patch to a scratch copy of /repo and run the
+    quick check there; returns a summary for the evidence (never affects the verdict)"""
+    out = {"seeded": [], "benign": []}
+    mutrun = os.path.join(HERE, "bin", "mutrun.sh")
+    for d in sorted(glob.glob(os.path.join(HERE, "seeded", pid + "-*"))):
+        p = os.path.join(d, "patch.diff")
+        r = subprocess.run([mutrun, p, pid], capture_output=True, text=True)
+        txt = r.stdout + r.stderr
+        if "PATCH-FAILED" in txt:
+            out["seeded"].append({"id": os.path.basename(d), "result": "skipped: patch no longer applies"})
+            continue
+        rules = sorted(set(re.findall(r"rule=([A-Z-]+)", txt)))
+        out["seeded"].append({"id": os.path.basename(d), "result": "detected" if "VIOLATION" in txt else "MISSED", "rules": rules})
+    bs = sorted(glob.glob(os.path.join(HERE, "selftest", "benign", "*.patch")))
+    for p in bs[:limit_benign]:
+        r = subprocess.run([mutrun, p, pid], capture_output=True, text=True)
+        txt = r.stdout + r.stderr
+        if "PATCH-FAILED" in txt:
+            out["benign"].append({"id": os.path.basename(p), "result": "skipped: patch no longer applies"})
+            continue
+        out["benign"].append({"id": os.path.basename(p), "result": "ALARM" if ("VIOLATION" in txt or "CHECK-ERROR" in txt) else "silent"})
+    out["summary"] = "seeded %d/%d detected; benign %d/%d silent" % (
+        sum(1 for x in out["seeded"] if x["result"] == "detected"), sum(1 for x in out["seeded"] if not x["result"].startswith("skipped")),
+        sum(1 for x in out["benign"] if x["result"] == "silent"), sum(1 for x in out["benign"] if not x["result"].startswith("skipped")))
+    return out
 
 
 def run(ctx, pid):
-    return
+    ctx.cur = None
+    if pid in WITNESS_FOR:
+        res = run_witnesses(ctx.src)
+        if "__error__" in res:
+            ctx.ob("WITNESS", "harness", False, "witness/src/lib.rs", "witness harness did not run: %s" % res.get("__log__", "")[-300:])
+        for w in WITNESS_FOR[pid]:
+            items = res.get(w, [])
+            cf = [x for x in items if x[0] == "compile_fail"]
+            tw = [x for x in items if x[0] == "twin"]
+            ok = bool(cf) and bool(tw) and all(x[1] for x in cf) and all(x[1] for x in tw)
+            ctx.ob("WITNESS", w, ok, "witness/src/lib.rs",
+                   "%d compile-fail witness(es) rejected with the expected error code, %d compiling twin(s) accepted" % (len(cf), len(tw)) if ok else
+                   "witness %s: compile_fail results %s, twins %s (a violating program type-checks, or the witness is broken)" % (w, cf, tw))
+    # self-test of the checker: evidence only, and only when analysing /repo itself
+    if os.path.abspath(ctx.src) == "/repo" and os.environ.get("PQ_NO_SELFTEST") != "1":
+        try:
+            st = selftest(pid)
+            ctx.notes.append({"selftest": st})
+        except Exception as e:  # never influences the verdict
+            ctx.notes.append({"selftest_error": str(e)})
